@@ -279,6 +279,61 @@ def main(chk):
                            'on the pre-existing state', {})
     except Exception as e:
       chk.violation(key, f'raised {type(e).__name__}: {str(e)[:200]}', {})
+  # ---- a carried variable owned by a setup-declared (grand)child: used before the loop, updated by nn.scan over the parent,
+  #      used again afterwards - the scan must leave what the unrolled loop leaves, visible to the code after it
+  class Cnt(nn.Module):
+    @nn.compact
+    def __call__(self):
+      n = self.variable('st', 'n', lambda: jnp.zeros((), jnp.int32))
+      n.value = n.value + 1
+      return n.value
+
+  class Blk(nn.Module):
+    depth: int = 2
+
+    def setup(self):
+      self.inner = Blk(depth=self.depth - 1) if self.depth > 1 else Cnt()
+
+    def __call__(self):
+      return self.inner()
+
+  def sbody(mdl, c, x):
+    n = mdl.block()
+    return c + x * n, n
+
+  class ScanTop(nn.Module):
+    depth: int = 2
+    use_scan: bool = True
+    reverse: bool = False
+
+    def setup(self):
+      self.block = Blk(depth=self.depth)
+
+    def __call__(self, xs):
+      first = self.block()
+      if self.use_scan:
+        c, ns = nn.scan(sbody, variable_carry='st', in_axes=0, out_axes=0, reverse=self.reverse)(self, jnp.zeros((), jnp.int32), xs)
+      else:
+        c, ns = jnp.zeros((), jnp.int32), [None] * xs.shape[0]
+        for t in (range(xs.shape[0] - 1, -1, -1) if self.reverse else range(xs.shape[0])):
+          c, ns[t] = sbody(self, c, xs[t])
+        ns = jnp.stack(ns)
+      return first, c, ns, self.block()
+  xs3 = jnp.asarray([1, 2, 3], jnp.int32)
+  for depth in (1, 2, 3):
+    for rev in (False, True):
+      key = f'C06:scan-over-parent:child-depth={depth}:reverse={rev}'
+      chk.count(key)
+      try:
+        v0 = ScanTop(depth=depth, use_scan=False).init(jax.random.key(0), xs3)
+        ref = ScanTop(depth=depth, use_scan=False, reverse=rev).apply(v0, xs3, mutable=['st'])
+        got = ScanTop(depth=depth, use_scan=True, reverse=rev).apply(v0, xs3, mutable=['st'])
+        a = [np.asarray(v).tolist() for v in jax.tree_util.tree_leaves(got)]
+        b = [np.asarray(v).tolist() for v in jax.tree_util.tree_leaves(ref)]
+        if a != b:
+          chk.violation(key, f'nn.scan over the parent gives (first, carry, stacked, after, state) {a}, the unrolled loop {b}', {})
+      except Exception as e:
+        chk.violation(key, f'raised {type(e).__name__}: {str(e)[:200]}', {})
   chk.cov['configurations_replayed'] = total
   chk.finish(rule=('every (length 1..3, reverse, unroll, role and axis of params and state, in/out axis, split flags, init/apply) configuration '
                    'enumerated by TLC (sampled in the quick tier: compile-bound), body = fixed integer module program'), exhaustive=chk.thorough)
